@@ -194,6 +194,107 @@ example : (bgM.run (bgInit false true 1 []) [.begin, .waitRet]).map (fun s => s.
 example : (sgM.run (sgInit 2 1 []) [.begin, .begin, .fnEnd, .done, .fnEnd, .done, .waitRet]).map
     (fun s => s.rets.map (·.fin)) = some [2] := by decide
 
+/-! ## the outcome predicates evaluated by the driver on the implementation's observations (T-out)
+
+    An observation lists, for each quiescent point of the real run, (callers returned, executions
+    inside the function), then the results, the invocation count and the concurrency high-water
+    mark. Each theorem says: the pair read off *any* reachable state of the model passes the
+    per-point test of `allowed…`, and the final part read off any terminal state passes the final
+    test. So an observation the predicate rejects cannot come from any schedule of the model. -/
+
+theorem once_observation_allowed (k : Kind) (callers : Nat) (script : List Step) (s : OnceS)
+    (h : onceM.Reachable (onceInit k callers script) s) :
+    oncePhaseOK (s.rets.length, if s.runner = .inFn then 1 else 0) = true ∧
+    (s.rets.length = callers → onceFinalOK k callers script (s.rets.map (·.res)) s.execs = true) := by
+  have hex := once_exactly_one_exec k callers script s h
+  have hsame := once_same_result k callers script s h
+  constructor
+  · obtain ⟨_, _, h0 | h1 | ⟨v, e, h2⟩ | ⟨p, h3⟩ | h4⟩ := onceInv_reachable k callers script s h
+    · simp [oncePhaseOK, h0.2.1]
+    · simp [oncePhaseOK, h1.2.1, h1.2.2.2.2.2.2.1]
+    · simp [oncePhaseOK, h2.2.1]
+    · simp [oncePhaseOK, h3.2.1]
+    · simp [oncePhaseOK, h4.2.1]
+  · intro hall
+    simp only [onceFinalOK, List.length_map, hall, beq_self_eq_true, Bool.true_and, Bool.and_eq_true, decide_eq_true_eq,
+      Bool.or_eq_true, beq_iff_eq, List.all_eq_true, List.mem_map, forall_exists_index, and_imp]
+    refine ⟨⟨hex.1, ?_⟩, ?_⟩
+    · by_cases hc : callers = 0
+      · exact Or.inl hc
+      · refine Or.inr (hex.2 ?_).1
+        intro hnil; rw [hnil] at hall; simp at hall; omega
+    · intro x r hr hx
+      subst hx
+      rcases hsame r hr with hs | ⟨p, hp, hs⟩
+      · left; rw [hs]; unfold onceExpected firstOutcome; cases k.proj (popStep script).1.res <;> rfl
+      · right; unfold firstOutcome at hp; rw [hp, hs]; simp [isPanicB]
+
+theorem limit_observation_allowed (k : Kind) (n callers : Nat) (script : List Step) (hn : 0 < n) (s : LimS)
+    (h : limM.Reachable (limInit k n callers script) s) :
+    limPhaseOK (s.finished + s.panics) (s.rets.length, insideFn s.holder) = true ∧
+    (s.terminal → limFinalOK n callers (s.rets.map (·.res)) s.execs = true) := by
+  have hcount := limit_exec_count k n callers script hn s h
+  obtain ⟨_, _, hp3⟩ := limInv2_reachable k n callers script s h
+  obtain ⟨_, hnn, hle, _, hfc, _, _, hho, hex, hfo, hpa, hrc, hrl, hcnt, _⟩ := limInv_reachable k n callers script hn s h
+  constructor
+  · simp only [limPhaseOK, Bool.and_eq_true, decide_eq_true_eq, Bool.or_eq_true, beq_iff_eq]
+    cases hh : s.holder with
+    | none => simp [insideFn]
+    | some pc =>
+      cases pc with
+      | inFn num =>
+        simp only [insideFn, Nat.le_refl, true_and]
+        right
+        have hlt : s.counter < s.n := by
+          have : num = s.counter ∧ s.counter < s.n := by simpa [holderOK, hh] using hho
+          exact this.2
+        simp only [hh, pendOwn, pendPanic] at hfo hpa
+        have : s.retCached = 0 := by
+          cases hc : s.retCached with
+          | zero => rfl
+          | succ m => have := hrc (by omega); omega
+        omega
+      | _ => simp [insideFn]
+  · intro hterm
+    obtain ⟨hfin, hexe⟩ := hcount.2.2 hterm
+    obtain ⟨hi, hw, hf, hh⟩ := hterm
+    simp only [hh, pendPanic, holds] at hpa hcnt
+    have hnp : (List.filter isPanicB (List.map (fun r => r.res) s.rets)).length = s.retPanic := by
+      rw [List.filter_map, List.length_map]; exact hp3
+    simp only [limFinalOK, hnp, List.length_map, Bool.and_eq_true, beq_iff_eq, decide_eq_true_eq]
+    refine ⟨⟨by omega, by omega⟩, by omega⟩
+
+/-- `Operation.Limit`: never more than n executions inside; when all have returned, every caller is
+    accounted for and the operation ran `min n calls` times -/
+theorem oplimit_observation_allowed (n callers : Nat) (script : List Step) (s : OLS)
+    (h : olM.Reachable (olInit n callers script) s) :
+    s.inFn ≤ n ∧ (s.terminal → s.retExec + s.retPanic + s.retSkip = callers ∧ s.execs = min n callers) := by
+  obtain ⟨hn, hle, _, hec, hef, _, _, hcnt⟩ := olInv_reachable n callers script s h
+  refine ⟨by omega, fun ht => ⟨?_, (limit_true_count n callers script s h).2 ht⟩⟩
+  obtain ⟨hi, hl, hf⟩ := ht
+  simp only [hl, List.length_nil] at hcnt; omega
+
+/-- `Lock`: when all callers have returned, each call was exactly one execution -/
+theorem lock_observation_allowed (k : Kind) (callers : Nat) (script : List Step) (s : LkS)
+    (h : lkM.Reachable (lkInit k callers script) s) :
+    s.active ≤ 1 ∧ (s.rets.length = callers → s.execs = callers) := by
+  obtain ⟨_, _, hc, he⟩ := lkInv_reachable k callers script s h
+  exact ⟨(no_two_executions_overlap k callers script s h).1, fun hall => by omega⟩
+
+/-- Signal / Launch / Background: while the background function has not returned, no waiter has -/
+theorem background_observation_allowed (worker : Bool) (waiters : Nat) (script : List Step) (s : BgS)
+    (h : bgM.Reachable (bgInit worker false waiters script) s) : s.fnFinished = false → s.rets = [] :=
+  (bgInv2_reachable worker waiters script s h).2
+
+/-- StartGroup: while any of the n executions is inside the function, no waiter has returned -/
+theorem startgroup_observation_allowed (n waiters : Nat) (script : List Step) (s : SgS)
+    (h : sgM.Reachable (sgInit n waiters script) s) : s.inFn ≤ n ∧ (s.inFn > 0 → s.rets = []) := by
+  obtain ⟨⟨_, h2, h3⟩, hn⟩ := sgInv2_reachable n waiters script s h
+  refine ⟨by omega, fun hin => ?_⟩
+  cases hr : s.rets with
+  | nil => rfl
+  | cons x xs => have := h3 (by simp [hr]); omega
+
 /-! ## Retry — sequential -/
 
 /-- `Retry(n)` makes at most n attempts per call (Worker / Processor flavour). -/
